@@ -299,6 +299,7 @@ def r7_write_only(ctx, p):
     from .c06 import _operands
     ctx.rule("C02-R7", "the output buffer is write-only: no statement of generate_step / Vocoder::synthesize (closures included) loads an element of the `&mut [f64]` output parameter - a chunk equals the one-shot waveform whatever the caller's buffer held before")
     n_bodies = 0
+    n_out_stores = 0
     for fn in (SG + "generate_step", VS):
         top = cm.body_or_fail(ctx, p, "C02-R7", fn)
         if top is None:
@@ -322,6 +323,10 @@ def r7_write_only(ctx, p):
                         r = r[1] if r[0] == "idx" else r[2][0]
                     return res(r) == out
                 return False
+            if fn == VS:
+                for sbb, si, sst, stgt, sroot, schain, sval in stores(b, eb):
+                    if res(sroot) == out:
+                        n_out_stores += 1
             for bb in range(len(b.blocks)):
                 if b.is_cleanup(bb):
                     continue
@@ -351,7 +356,8 @@ def r7_write_only(ctx, p):
                 ctx.fail("C02-R7", b.path, "buffer load", "`%s` is read: the samples written by a step depend on what the caller's buffer held (accumulating instead of overwriting?)" % what, loc)
         else:
             ctx.ok("C02-R7", "%s: no element of `%s` is ever loaded" % (fn.split("::")[-1], out[2]), top.loc())
-    ctx.anchor("C02-R7", "bodies scanned for loads of the output buffer", n_bodies, 4, None)
+    ctx.anchor("C02-R7", "bodies scanned for loads of the output buffer", n_bodies, 2, None)
+    ctx.anchor("C02-R7", "stores into the output buffer seen in Vocoder::synthesize (one per filter family)", n_out_stores, 2, None)
 
 
 def r5(ctx, p, ga):
